@@ -47,8 +47,12 @@ def _merge_stubs_docstring(obj: Object, stubs: Object) -> None:
 def _merge_stubs_overloads(obj: Module | Class, stubs: Module | Class) -> None:
     for function_name, overloads in list(stubs.overloads.items()):
         if overloads:
-            with suppress(KeyError):
-                obj.get_member(function_name).overloads = overloads
+            with suppress(KeyError, AliasResolutionError, CyclicAliasError):
+                member = obj.get_member(function_name)
+                # Overloads belong to functions only (possibly reached through an alias):
+                # members of another kind, and aliases that cannot be resolved, are left alone.
+                if member.is_function:
+                    member.overloads = overloads
         del stubs.overloads[function_name]
 
 
